@@ -98,11 +98,15 @@ class Check(PropertyCheck):
                   "any request, body kind, option setting, either printf flavour - is read as one simple command whose argv starts "
                   "with curlArgs / equals httpieArgs), httpie_body_ctl_nohex, curl_refused_iff_binary, popHeaders_sublist and "
                   "popHeaders_keeps_others (pop_headers only removes Content-Length / Host / :authority lines), assemble_chunked and "
-                  "raw_chunked_parses_back (the chunk-framed raw export reads back for every content).")
+                  "raw_chunked_parses_back (the chunk-framed raw export reads back for every content), isChunked_case_insensitive. "
+                  "Round 5: url_argument_dials_request_host - the URL argument is C33's transcription of url.unparse/hostport "
+                  "(driver op `url` ties it to the real function) and, read back the way a client reads an authority, names exactly "
+                  "the request's host (IPv6 literals in brackets) and port, for every host a URL can carry.")
     level_note = ("POSIX shell semantics are modelled for the emitted constructs only and validated against dash and bash, not "
                   "proved of any shell; NUL cannot be passed in argv and is excluded from generated fields; httpie is not "
-                  "installed: its reading of the argv is taken as [http, METHOD, URL, 'name: value'...]; pretty_url/pretty_host/"
-                  "get_text and content decoding are library answers. 'Exactly that method' is read as Request.method (the data "
+                  "installed: its reading of the argv is taken as [http, METHOD, URL, 'name: value'...]; pretty_host, get_text and content decoding are library "
+                  "answers; url.unparse / hostport are transcribed (C33) and tied, while WHICH host and port pretty_url feeds into it "
+                  "(Host header vs request.host) stays an input. 'Exactly that method' is read as Request.method (the data "
                   "model upper-cases the wire bytes), 'that URL' as pretty_url or url (they differ only when the Host header has "
                   "no port and the connection a non-default one), an Accept-Encoding header is represented by --compressed "
                   "(deliberate substitution by the exporter). body_exact is proved only as body_exact_partial with "
